@@ -169,6 +169,7 @@ def run(ctx):
     h.w.load("edgegraph.output.plantuml")
     h.w.snapshot()
     rec.h = h
+    MEMO_FIELDS.add(h.actual["memo"])      # the memo field as it is called in this tree
     h.w.set_order = "insertion"   # iteration order of link sets does not matter for the heap comparison
     n = 0
     for name, qual, cbnames, thunk in entry_points(h, rec):
